@@ -194,8 +194,10 @@ func discoveryClientEntry(h *harness) *entry {
 			return 0, false
 		}
 		n := 0
-		if es := t.Get("entries"); es != nil && es.K == jmut.Obj {
-			n = len(es.O)
+		for _, m := range t.O { // the largest "entries" member (duplicates!)
+			if m.Key == "entries" && m.Val != nil && m.Val.K == jmut.Obj {
+				n = max(n, len(m.Val.O))
+			}
 		}
 		other := false
 		for _, m := range t.O { // every "seed" member (duplicates!) must be the placeholder
@@ -254,7 +256,20 @@ func discoveryClientEntry(h *harness) *entry {
 				seed = *ss[0].Seed
 			}
 		}
+		if len(seed) > 40 {
+			sum := sha256.Sum256([]byte(seed))
+			seed = fmt.Sprintf("%s...(%d bytes, sha256 %s)", seed[:16], len(seed), hex.EncodeToString(sum[:6]))
+		}
 		return fmt.Sprintf("seed=%s timestamp=%d presentations=%d sha256=%s", seed, ts, len(ps), hex.EncodeToString(hsh.Sum(nil)[:8]))
+	}
+	// storedSeed is the seed of the Discovery Server as the client knows it ("" when it knows none yet)
+	storedSeed := func() string {
+		var ss []srow
+		cdb.Table("discovery_service").Where("id = ?", discClientService).Find(&ss)
+		if len(ss) == 0 || ss[0].Seed == nil {
+			return ""
+		}
+		return *ss[0].Seed
 	}
 
 	var e *entry
@@ -329,6 +344,11 @@ func discoveryClientEntry(h *harness) *entry {
 			srv.set(c.status, c.ct, c.body, c.short)
 			st := h.st(e.name)
 			before := digest()
+			// an earlier hostile answer may have been accepted with a seed of its own: then also an answer with the regular seed demands a reset
+			demandsReset := c.otherSeed
+			if known := storedSeed(); known != "" && known != currentSeed {
+				demandsReset = true
+			}
 			hits := srv.hits.Load()
 			err := discovery.VerifClientUpdate(cm, discClientService)
 			after := digest()
@@ -339,7 +359,7 @@ func discoveryClientEntry(h *harness) *entry {
 				h.r.Fatalf("%s: the client did not ask the harness' Discovery Server", e.name)
 			}
 			if err != nil && after != before {
-				if c.entries >= 2 || c.otherSeed {
+				if c.entries >= 2 || demandsReset {
 					h.r.Unspecified("discovery-client/answer-rejected-after-part-of-it-was-applied")
 				} else {
 					h.stateViolation(e, in, fmt.Sprintf("the updater rejected the Discovery Server's answer (%v) but the client's copy of the service changed", err), before, after)
